@@ -118,12 +118,15 @@ class C07(core.Check):
                'handling of Values.from_repr, tied by correspondence through values.to_repr / values.str_ / '
                'values.val_ / Values.from_repr / numbers.str_to_decimal on a real Session and through '
                'PRINT/WRITE/STR$/VAL statements']
-    PARTIAL = ('the two error-bound clauses are proved per scaling step (one _div10_den / _mul10_den step and '
-               'the loop-length bound), not yet accumulated over the loops: C07_print_err_statement and '
-               'C07_parse_err_statement are stated as Definitions and checked by the exact-rational oracle only')
+    PARTIAL = ('clause 4, printing: proved per scaling step, for the loop lengths and accumulated over the dividing loop '
+               'of to_decimal (C07_print_div_loop_err_partial); the composition with the carry roundings, the '
+               'multiplying loop and the integer rounding is open: C07_print_err_statement is a Definition, checked by '
+               'the exact-rational oracle only. Clause 4, reading, is proved (C07_parse_err) for literals whose digit '
+               'string fits the mantissa, all negative exponents, positive exponents <= 62')
     RULE = ('print cases: values built from byte patterns in a real Session (s._impl.values), values.to_repr in '
             'the four (leading_space, type_sign) combinations = PRINT/STR$, WRITE, LIST forms, values.str_, '
-            'Float.to_decimal; end-to-end cases run PRINT/WRITE/STR$/VAL statements in a Session. parse cases: '
+            'Float.to_decimal; end-to-end cases run PRINT/WRITE/STR$/VAL statements in a Session; step cases: '
+            'Float._div10_den/_mul10_den/_apply_carry_den on denormalised triples with the proved step bounds as oracle. parse cases: '
             'numbers.str_to_decimal (both allow_nonnum modes) and Values.from_repr result BYTES (hard and soft '
             'error handler). Pools: random single/double bytes, integers at 10^k and 2^k boundaries up to 2^24 / '
             '10^16, values whose scaled mantissa is next to 10^digits (carry class of D07a), exponent extremes; '
